@@ -28,26 +28,33 @@ Theorem C14_no_equal_primary_keys_refuted :
 Proof. exact (ex_intro _ sch_ci (ex_intro _ h_ci missed_duplicate_ci)). Qed.
 Print Assumptions C14_no_equal_primary_keys_refuted.
 
-(* exactness of a plain multi-row INSERT (primary key and unique indexes, Go-value equality, prefixes in bytes):
-   when the row-key strings of the statement's rows are injective, the statement is rejected iff some row collides with a
-   stored row or with an earlier row of the statement, and otherwise exactly the new rows are added *)
+(* the row key (getRowKey since commit 1b57e874c: every key part is length-prefixed) is injective on rows whose key columns
+   hold integers / strings of fixed kinds: length-prefix decoding + injectivity of the decimal rendering *)
+Theorem C14_row_key_injective :
+  forall sch ks a b, key_kinds sch ks a -> key_kinds sch ks b -> key_str sch a = key_str sch b -> key sch a = key sch b.
+Proof. exact row_key_injective. Qed.
+Print Assumptions C14_row_key_injective.
+
+(* exactness of a plain multi-row INSERT (primary key and unique indexes, Go-value equality, prefixes in bytes): the
+   statement is rejected iff some row collides with a stored row or with an earlier row of the statement, and otherwise
+   exactly the new rows are added.  No injectivity guard any more: the rows only have to be well typed in the key. *)
 Theorem C14_insert_rejected_iff_collision :
-  forall sch rows news, keyless sch = false -> inj_on sch news ->
+  forall sch ks rows news, keyless sch = false -> Forall (key_kinds sch ks) news ->
     impl_exec sch rows (SInsert IPlain news) =
     match spec_insert sch rows news with
     | Some l => (OOk (N.of_nat (length news)) 0, sort_rows sch l)
     | None => (ODupKey, rows)
     end.
-Proof. exact insert_plain_exact. Qed.
+Proof. exact insert_plain_exact_typed. Qed.
 Print Assumptions C14_insert_rejected_iff_collision.
 
-(* without the injectivity guard it is false: PRIMARY KEY(a,b), INSERT (1,12,0),(11,2,0) into the empty table is
-   rejected although the reference accepts both rows (getRowKey prints "112" twice) *)
-Theorem C14_insert_rejected_iff_collision_refuted :
-  exists sch news, keyless sch = false /\ spec_insert sch [] news = Some news /\
-                   impl_exec sch [] (SInsert IPlain news) = (ODupKey, []).
-Proof. exact (ex_intro _ sch_ab (ex_intro _ news_ab false_duplicate_composite)). Qed.
-Print Assumptions C14_insert_rejected_iff_collision_refuted.
+(* regression witness of the repaired defect: PRIMARY KEY(a,b), INSERT (1,12,0),(11,2,0) into the empty table is accepted
+   (the row keys are "1:12:12" and "2:111:2", formerly "112" twice) *)
+Theorem C14_former_key_string_collision_accepted :
+  key_str sch_ab [VInt 1; VInt 12; VInt 0] <> key_str sch_ab [VInt 11; VInt 2; VInt 0] /\
+  impl_exec sch_ab [] (SInsert IPlain news_ab) = (OOk 2 0, news_ab).
+Proof. exact former_false_duplicate_accepted. Qed.
+Print Assumptions C14_former_key_string_collision_accepted.
 
 (* unique indexes are NOT protected over all histories: GetByCols answers "not found" as soon as a pending delete
    matches, so REPLACE (1,9),(2,5),(3,5) over (1,5),(2,6),(3,7) with UNIQUE(u) stores u = 5 twice *)
@@ -60,12 +67,10 @@ Proof.
 Qed.
 Print Assumptions C14_unique_index_invariant_refuted.
 
-(* the guard of C14_insert_rejected_iff_collision is satisfiable on a composite key *)
+(* the typing premise of C14_insert_rejected_iff_collision is satisfiable, also on the formerly colliding rows *)
 Example C14_nonvacuous :
-  inj_on sch_ab [[VInt 1; VInt 2; VInt 0]; [VInt 3; VInt 4; VInt 0]] /\
-  impl_exec sch_ab [] (SInsert IPlain [[VInt 1; VInt 2; VInt 0]; [VInt 3; VInt 4; VInt 0]]) =
-    (OOk 2 0, [[VInt 1; VInt 2; VInt 0]; [VInt 3; VInt 4; VInt 0]]) /\
-  impl_exec sch_ab [[VInt 1; VInt 2; VInt 0]] (SInsert IPlain [[VInt 3; VInt 4; VInt 0]; [VInt 1; VInt 2; VInt 5]]) =
-    (ODupKey, [[VInt 1; VInt 2; VInt 0]]).
-Proof. split; [exact inj_on_example|split; vm_compute; reflexivity]. Qed.
+  Forall (key_kinds sch_ab [KInt; KInt]) news_ab /\
+  impl_exec sch_ab [[VInt 1; VInt 12; VInt 0]] (SInsert IPlain [[VInt 11; VInt 2; VInt 0]; [VInt 1; VInt 12; VInt 5]]) =
+    (ODupKey, [[VInt 1; VInt 12; VInt 0]]).
+Proof. split; [exact key_kinds_example|vm_compute; reflexivity]. Qed.
 Print Assumptions C14_nonvacuous.
